@@ -164,6 +164,14 @@ def env_jobs(tier, mm):
             jobs.append(base)
             if tier != "quick" or "RP2_ENABLE_PROFILER" in env:
                 jobs.append(dict(base, kind=base["kind"] + "-invalid", supported=False, ini_text=l6.ini_text(inp, holders=["Nobody"])))
+    # an input spreadsheet of more than 1 MiB / 8 MiB (buffers that spill to disk only beyond a size): one country per run in the
+    # quick tier, all in the thorough tier
+    for k, c in enumerate(l6.COUNTRIES):
+        if tier == "quick" and k != core.seed() % len(l6.COUNTRIES):
+            continue
+        inp = l6.gen_input(rng, rng.choice(l6.SHAPES))
+        jobs.append({"country": c, "opts": {"lang": mm[c]["langs"][0]}, "inp": inp, "audit": True, "hashseed": 0, "supported": True,
+                     "bulk": 1_300_000 if tier == "quick" or k % 2 else 9_000_000, "kind": "big-input"})
     return jobs
 
 
